@@ -117,6 +117,8 @@ def run(P, R, tier):
     _pst.check_standins(P, R, 'kmeans:KMeansMachine.fit')
     from ..engines import proto as _prs
     _prs.check_reduction_siblings(P, R, ['gmm', 'kmeans', 'utils'])
+    from ..engines import cover as _cvl
+    _cvl.check_lse_functions(P, R, ['gmm'])
 
 
 EXPLANATION += ' (COVER.tree) tree-shaped reductions over the blocks (rounds that rebuild the list, window recursion, stride doubling) add every block exactly once for every number of blocks: affine tiling of the index runs after a parity split.'
